@@ -35,6 +35,13 @@ func init() {
 		for stm := int64(0); stm < 2; stm++ {
 			s.Instances = append(s.Instances, run.Instance{Pkg: "board", Func: "VpH_C10_start", Params: map[string]int64{"stm": stm}})
 		}
+		// "en-passant capturability" is part of position identity: every double pawn push records (and hashes) a target
+		// iff a legal en-passant capture exists in the successor
+		s.Pkgs = append(s.Pkgs, "attacks")
+		s.SliderSummary = true
+		s.Instances = append(s.Instances, doublePushInstances("VpH_C01_eptarget")...)
+		s.Bounds = append(s.Bounds, "en-passant capturability as part of position identity: for all 16 double pawn pushes from an ARBITRARY valid position, MakeMove records the en-passant target iff a legal en-passant capture exists in the successor (the same one-step obligation as in C01/C02)")
+		s.Stubs = append(s.Stubs, "attacks.RookMoves/BishopMoves -> ray-walk specification, per square, only where the C12 lemma was re-proved on this run (double-push obligations only)")
 		return s
 	}
 }
